@@ -52,7 +52,7 @@ def known() -> Known:
 
 
 def slugify(title):
-    return re.sub(r"[^a-z0-9\- ]", "", title.lower()).replace(" ", "-")
+    return re.sub(r"[^\w\- ]", "", title.lower()).replace(" ", "-")
 
 
 # --------------------------------------------------------------------------- project generation
@@ -67,7 +67,7 @@ def project_st(draw):
     docs = []
     for i in range(n):
         d = draw(st.sampled_from(DIRS))
-        heads = [f"Section one D{i}", draw(st.sampled_from([f"Other D{i}", "Common heading", f"Section one D{i}"])),
+        heads = [f"Section one D{i}", draw(st.sampled_from([f"Other D{i}", "Common heading", f"Section one D{i}", f"\u00dcbersicht \u00e9 D{i}"])),
                  draw(st.sampled_from(["Common heading", f"Third D{i}", f"Section one D{i}"])),
                  draw(st.sampled_from(["Common heading", f"Section one D{i}"]))]
         heads = heads[:draw(st.integers(2, 4))]
@@ -336,7 +336,7 @@ def sub_each(acc, shard, nshards, tier, seed):
     document to a target in another directory (exhaustive over the spelling table)."""
     docs = [{"name": "doc0", "title": "Title D0", "heads": ["Section one D0", "Common heading", "Common heading", "Common heading"], "label": "lab-d0", "label_head": 1},
             {"name": "a/doc1", "title": "Title D1", "heads": ["Section one D1", "Section one D1", "Section one D1"], "label": "Lab-D1", "label_head": 1},
-            {"name": "a/doc0", "title": "Title A0", "heads": ["Section one A0", "Other A0"], "label": "lab-a0", "label_head": 0},
+            {"name": "a/doc0", "title": "Title A0", "heads": ["Section one A0", "\u00dcbersicht \u00e9 A0"], "label": "lab-a0", "label_head": 0},
             {"name": "d/e/doc1", "title": "Title E1", "heads": ["Section one E1", "Other E1"], "label": "Setup-Guide-E1", "label_head": 1},
             {"name": "a/b/c/doc2", "title": "Title D2", "heads": ["Section one D2", "Other D2", "Common heading"], "label": "lab-d2", "label_head": 0},
             {"name": "d/e/doc3", "title": "Title D3", "heads": ["Common heading", "Third D3"], "label": "lab-d3", "label_head": 0},
@@ -369,6 +369,25 @@ def sub_each(acc, shard, nshards, tier, seed):
                     acc.known_hits[v["signature"]] += 1
                 elif len(acc.violations) < 8 and all(v["signature"] != x["signature"] for x in acc.violations):
                     acc.violations.append(v)
+    # one project, several source pages in different directories that write the *same* relative destination text
+    # ('doc0.md', 'doc1.md', '../doc0.md'), which names a different file for each of them
+    names = [d["name"] for d in docs]
+    same_text = [("a/doc4", "a/doc0"), ("d", "doc0"), ("a/doc4", "a/doc1"), ("d/e/doc3", "d/e/doc1"), ("a/b", "a/doc0"), ("d/e/doc3", "d/e/doc1"),
+                 ("a/doc1", "a/doc0"), ("doc0", "d"), ("a/doc0", "a/b"), ("a/b/c/doc2", "a/b"), ("a/doc1", "doc0"), ("d/e/doc1", "d")]
+    for kind in ("project", "doc", "noext", "project_anchor", "anchor", "file", "path"):
+        for text in ("empty", "plain"):
+            for order in (0, 1):
+                i += 1
+                if i % nshards != shard:
+                    continue
+                pairs = same_text if order == 0 else list(reversed(same_text))
+                links = [{"src": names.index(s), "kind": kind, "tgt": names.index(t), "text": text, "style": "rel", "head": k % 2, "file": k % len(files)}
+                         for k, (s, t) in enumerate(pairs)]
+                for v in check_case(acc, {"docs": docs, "files": files, "links": links}):
+                    if kn.matches(v):
+                        acc.known_hits[v["signature"]] += 1
+                    elif len(acc.violations) < 8 and all(v["signature"] != x["signature"] for x in acc.violations):
+                        acc.violations.append(v)
     acc.exhaustive = True
 
 
